@@ -127,9 +127,11 @@ def stepOp (sem : Sem PF PF (List Int) Int (List Int)) (names : List String)
       (resStr n (specDeriv sem names items st.model.x st.specParams k))
   | "params" =>
     let ps (l : List Int) := l.foldl (fun s v => s ++ " " ++ toString v) ""
-    let model := s!"ok {st.model.params.length}{ps st.model.params} | {st.model.names.length} {st.model.fns.length} {st.model.x.length}"
+    -- `SeparableModel::parameters()`: the names in model order
+    let encN (l : List String) := " ".intercalate (l.map fun s => if s.isEmpty then "~" else s)
+    let model := s!"ok {st.model.params.length}{ps st.model.params} | {st.model.names.length} {st.model.fns.length} {st.model.x.length} | {encN st.model.names}"
     let nfn := (items.filter Item.isFnLike).length
-    let spec := s!"ok {st.specParams.length}{ps st.specParams} | {names.length} {nfn} {st.model.x.length}"
+    let spec := s!"ok {st.specParams.length}{ps st.specParams} | {names.length} {nfn} {st.model.x.length} | {encN names}"
     check st model spec
   | _ => st
 
